@@ -523,11 +523,126 @@ def rule_nan_measure(ctx, repo):
                   "iteration can be reported as converged", f.W(bad[0][0]) if bad else f.W())
 
 
+def rule_flag_gates(ctx, repo):
+    """the property lists PFlow.converged, TDS.busted and TDS.test_ok as the success flags; a dependent routine consults each flag of
+    the state it is about to use, on every path to its work, and the consulting test has a refusing branch"""
+    import re
+
+    def flag_tests(f, flag):
+        rx = re.compile(r"(?<![\w.])%s\b" % re.escape(flag))
+        return [t for t in f.tests(lambda c: bool(rx.search(c))) if f.g.data(t)["kind"] == "test"]
+
+    def forced_label(cond, flag, invalid):
+        """the branch label (`true`/`false`) the test takes whenever the flag has its invalid value, whatever the other atoms are;
+        None if the flag alone does not decide it (e.g. `busted and something_else`)"""
+        import itertools
+        leaves = []
+
+        def collect(e):
+            if isinstance(e, ast.BoolOp):
+                for v in e.values:
+                    collect(v)
+            elif isinstance(e, ast.UnaryOp) and isinstance(e.op, ast.Not):
+                collect(e.operand)
+            else:
+                leaves.append(e)
+        collect(cond)
+        rx = re.compile(r"(?<![\w.])%s\b" % re.escape(flag))
+        free = [l for l in leaves if not rx.search(src(l))]
+        keys = sorted({src(l) for l in free})
+
+        def leaf_val(e, env):
+            t = src(e)
+            if t in env:
+                return env[t]
+            # a leaf over the flag: the flag itself or a comparison of it with a constant
+            if (dotted(e) or "") == flag:
+                return bool(invalid)
+            if isinstance(e, ast.Compare) and len(e.ops) == 1 and (dotted(e.left) or "") == flag and isinstance(e.comparators[0], ast.Constant):
+                c = e.comparators[0].value
+                op = type(e.ops[0])
+                if op in (ast.Is, ast.Eq):
+                    return invalid is c if op is ast.Is else invalid == c
+                if op in (ast.IsNot, ast.NotEq):
+                    return invalid is not c if op is ast.IsNot else invalid != c
+            raise ValueError(t)
+
+        def ev(e, env):
+            if isinstance(e, ast.BoolOp):
+                vals = [ev(v, env) for v in e.values]
+                return all(vals) if isinstance(e.op, ast.And) else any(vals)
+            if isinstance(e, ast.UnaryOp) and isinstance(e.op, ast.Not):
+                return not ev(e.operand, env)
+            return leaf_val(e, env)
+        out = set()
+        try:
+            for combo in itertools.product([False, True], repeat=len(keys)):
+                out.add(bool(ev(cond, dict(zip(keys, combo)))))
+        except ValueError:
+            return None
+        return {True: "true", False: "false"}[out.pop()] if len(out) == 1 else None
+
+    def refusing_tests(f, flag, invalid):
+        # tests of the flag whose branch for the invalid value is forced and guards a falsy return or a `status = False`
+        outs = [r for r in f.returns() if falsy_return(f.g.data(r)["ast"].value) or
+                (isinstance(f.g.data(r)["ast"].value, ast.Name) and f.g.data(r)["ast"].value.id in ("succeed", "status"))]
+        outs += [n for n in f.g.nodes() if f.g.data(n)["kind"] == "stmt" and Q.match("status = False", f.g.data(n)["ast"])]
+        res = []
+        for t in flag_tests(f, flag):
+            lab = forced_label(f.g.data(t)["expr"][0], flag, invalid)
+            if lab is not None and any(f.g.guarded_by(o, t, lab) for o in outs):
+                res.append(t)
+        return res
+
+    # ---- TDS.run: work = the integration loop and the resume step (which advances the clock)
+    f = F.method(repo, "TDS", "run", TDS)
+    loops = [n for n in f.g.nodes() if f.g.data(n)["kind"] == "loop" and isinstance(f.g.data(n)["ast"], ast.While)]
+    work = loops[:1] + f.calls("self.init_resume")
+    inits = f.calls("self.init")
+    for flag, invalid, after_init, what in (("self.busted", True, False, "a simulation that was terminated by an error is not continued"),
+                                            ("self.test_ok", False, True, "a failed initialisation (test_ok False) is not integrated")):
+        ts = refusing_tests(f, flag, invalid)
+        bad = []
+        if not work:
+            ctx.undecided("C17.gate", "TDS.run/flag/%s" % flag.split(".")[-1], "integration loop not found", f.W())
+            continue
+        for w in work:
+            ok, pth = f.g.must_pass(f.g.entry, w, ts)
+            if not ok:
+                bad.append("path to L%d without a refusing test of `%s`: %s" % (f.g.line(w), flag, f.g.fmt_path(pth or [])))
+            if after_init:
+                for c in inits:
+                    if f.g.reachable(c, w):
+                        ok2, pth2 = f.g.must_pass(c, w, ts)
+                        if not ok2:
+                            bad.append("`%s` is not consulted between init() and L%d" % (flag, f.g.line(w)))
+        ctx.check(not bad, "C17.gate", "TDS.run/flag/%s" % flag.split(".")[-1], what,
+                  "; ".join(bad[:2]) + " -- TDS.run works on a state its own flag marks invalid", f.W(work[0]))
+
+    # ---- EIG._pre_check: every status that lets the analysis proceed has consulted the flags of the state it linearises
+    pcf = F.method(repo, "EIG", "_pre_check", EIG)
+    truthy = [r for r in pcf.returns() if not falsy_return(pcf.g.data(r)["ast"].value)]
+    inits = pcf.calls("self.system.TDS.init")
+    for flag, invalid, what in (("self.system.TDS.busted", True, "the state of a terminated simulation is not linearised"),
+                                ("self.system.TDS.test_ok", False, "a failed initialisation is not linearised")):
+        ts = refusing_tests(pcf, flag, invalid)
+        bad = []
+        for r in truthy:
+            ok, pth = pcf.g.must_pass(pcf.g.entry, r, ts)
+            if not ok:
+                bad.append("path to the proceeding return L%d without a refusing test of `%s`: %s" % (pcf.g.line(r), flag, pcf.g.fmt_path(pth or [])))
+            for c in inits:
+                if pcf.g.reachable(c, r) and not pcf.g.must_pass(c, r, ts)[0]:
+                    bad.append("`%s` is not consulted after TDS.init()" % flag)
+        ctx.check(bool(truthy) and not bad, "C17.gate", "EIG._pre_check/flag/%s" % flag.split(".")[-1], what,
+                  "; ".join(bad[:2]) + " -- EIG.run reports success on a state that TDS marks invalid", pcf.W())
+
+
 def run(ctx):
     ctx.rule("C17.exit", "every unsuccessful return of PFlow.run, TDS.run, TDS.test_init, EIG.run, System.setup passes an "
              "exit_code increment (frozen exception: repeated setup())", 9)
     ctx.rule("C17.success", "success flags are dominated by the routine's own residual / termination test", 6)
-    ctx.rule("C17.gate", "dependent computations are dominated by a PFlow.converged / is_setup / pre-check gate with early return; no-state refusal on every path", 7)
+    ctx.rule("C17.gate", "dependent computations are dominated by a PFlow.converged / is_setup / pre-check gate with early return; no-state refusal on every path; every success flag of the prerequisite state (busted, test_ok) consulted with a refusing branch", 11)
     ctx.rule("C17.aggregate", "CLI aggregation: failed load, None system, lists, missing file, parse failures; entry points propagate the exit status", 8)
     ctx.rule("C17.nan", "NaN exits precede state updates / success; the convergence measure is NaN-propagating", 5)
     ctx.rule("C17.sentinel", "linear-solver NaN sentinel propagation (rules shared with C16)", 4)
@@ -536,6 +651,7 @@ def run(ctx):
     rule_exits(ctx, repo)
     rule_main(ctx, repo)
     rule_gating(ctx, repo)
+    rule_flag_gates(ctx, repo)
     rule_flag_reset(ctx, repo)
     rule_newton_exits(ctx, repo)
     rule_nan_measure(ctx, repo)
